@@ -3,6 +3,7 @@ package drv
 import (
 	"fmt"
 	"regexp"
+	"strings"
 
 	"github.com/hashicorp/terraform-plugin-framework/diag"
 	"github.com/hashicorp/terraform-plugin-framework/tfsdk"
@@ -29,9 +30,17 @@ func tagOfPlanModifier(v tfsdk.AttributePlanModifier) string {
 
 // AttrToJ projects one schema attribute (πschema).
 func AttrToJ(a tfsdk.Attribute) J {
+	words := []interface{}{}
+	for _, w := range strings.Fields(a.Description) {
+		words = append(words, w)
+	}
 	r := J{
 		"required": a.Required, "optional": a.Optional, "computed": a.Computed, "sensitive": a.Sensitive,
 		"desc": a.Description, "mode": "none", "sub": J{},
+		// projection of the description for the specification, which has no string functions: its words, and
+		// whether it is one trimmed line (no line breaks, no leading / trailing blanks)
+		"descw":     words,
+		"descclean": !strings.ContainsAny(a.Description, "\n\r") && strings.TrimSpace(a.Description) == a.Description,
 	}
 	vs := []interface{}{}
 	for _, v := range a.Validators {
